@@ -168,41 +168,49 @@ def table_masks(net):
 
 
 def nan_pattern(ctx, net, spec, changed, kw):
+    """every res_* row: all NaN iff the element is not calculated (junction: p_bar)"""
     masks = table_masks(net)
-    bad = None
+    bads = []
     for tbl, m in masks.items():
         res = net["res_" + tbl]
         if m is None:
-            bad = (tbl, "sections of one %s disagree about being calculated" % tbl)
-            break
-        num = res.select_dtypes(include=[np.number]).values.astype(float)
+            bads.append(({"monitor": "nan_pattern", "table": tbl, "columns": "sections"},
+                         "sections of one %s disagree about being calculated" % tbl))
+            continue
+        numdf = res.select_dtypes(include=[np.number])
+        num = numdf.values.astype(float)
         if num.shape[0] != len(m) or not num.size:
             continue
-        all_nan = np.all(np.isnan(num), axis=1)
-        col0 = np.isnan(num[:, 0])
+        isn = np.isnan(num)
         if tbl == "junction":
-            wrong = np.flatnonzero(col0 != ~m)
+            wrong = np.flatnonzero(isn[:, 0] != ~m)
+            cols = "p_bar"
         else:
-            wrong = np.flatnonzero((~m & ~all_nan) | (m & col0))
+            stray = ~m[:, None] & ~isn                   # numbers reported for a not calculated element
+            missing = m & isn[:, 0]                      # calculated element without its first result
+            wrong = np.flatnonzero(stray.any(axis=1) | missing)
+            cols = ",".join(sorted(str(c) for c, f in zip(numdf.columns, stray.any(axis=0)) if f)) or \
+                ("missing:" + str(numdf.columns[0]))
         if len(wrong):
-            bad = (tbl, "res_%s rows %r: NaN pattern %r but calculated mask %r" % (
-                tbl, res.index[wrong][:6].tolist(), col0[wrong][:6].tolist(), m[wrong][:6].tolist()))
-            break
-    if bad is None:
-        jm = dict(zip(net.junction.index.tolist(), masks["junction"].tolist()))
-        for tbl in ("sink", "source", "mass_storage"):
-            if tbl in net and len(net[tbl]):
-                exp = np.array([bool(s) and jm[int(j)] for s, j in zip(net[tbl].in_service.values, net[tbl].junction.values)])
-                got = ~np.isnan(net["res_" + tbl].mdot_kg_per_s.values.astype(float))
-                if not np.array_equal(exp, got):
-                    w = np.flatnonzero(exp != got)
-                    bad = (tbl, "res_%s rows %r served=%r but (in service and junction supplied)=%r" % (
-                        tbl, net[tbl].index[w][:6].tolist(), got[w][:6].tolist(), exp[w][:6].tolist()))
-                    break
-    if bad:
-        ctx.violation({"monitor": "nan_pattern", "table": bad[0]}, bad[1],
-                      {"kind": "nan_pattern", "net": spec, "changed": changed, "options": kw})
-    return bad is None
+            bads.append(({"monitor": "nan_pattern", "table": tbl, "columns": cols},
+                         "res_%s rows %r (calculated mask %r) report numbers in columns [%s] / NaN pattern of the "
+                         "first column %r" % (tbl, res.index[wrong][:6].tolist(), m[wrong][:6].tolist(), cols,
+                                              isn[wrong, 0][:6].tolist())))
+    jm = dict(zip(net.junction.index.tolist(), masks["junction"].tolist()))
+    for tbl in ("sink", "source", "mass_storage"):
+        if tbl in net and len(net[tbl]):
+            exp = np.array([bool(s) and jm[int(j)] for s, j in zip(net[tbl].in_service.values, net[tbl].junction.values)])
+            got = ~np.isnan(net["res_" + tbl].mdot_kg_per_s.values.astype(float))
+            if not np.array_equal(exp, got):
+                w = np.flatnonzero(exp != got)
+                bads.append(({"monitor": "nan_pattern", "table": tbl, "columns": "mdot_kg_per_s"},
+                             "res_%s rows %r served=%r but (in service and junction supplied)=%r" % (
+                                 tbl, net[tbl].index[w][:6].tolist(), got[w][:6].tolist(), exp[w][:6].tolist())))
+    genuine = False
+    for sig, what in bads:
+        r = ctx.violation(sig, what, {"kind": "nan_pattern", "net": spec, "changed": changed, "options": kw})
+        genuine = genuine or r != "known"
+    return not genuine
 
 
 def deleted_net(net):
